@@ -156,8 +156,8 @@ CHAIN_NOTE = ('Trusted: Coq kernel, extraction (ExtrOcamlBasic), OCaml driver, G
               'the refinement theorem chain_refines assumes the decidable check plan_wf; plan_wf is itself proved for every chain that binds '
               '(WfProofs.bind_plan_wf: compiled closures = reference projection of the plan, one invoke / at most one init function, clean base array, '
               'slot tables injective/disjoint/bounded, every read covered; the facts needed about the classification tables are checked by computation on '
-              'the regenerated Registry.v) under two positional conditions - no included per-invocation provider other than a plain injector before the '
-              'invoke function, init returns have slots - which are proved for cases without Reorder annotation and init function (chain_refines_plain: no '
+              'the regenerated Registry.v) under one positional condition - no included per-invocation provider other than a plain injector before the '
+              'invoke function - which is proved for cases without Reorder annotation (chain_refines_plain: no '
               'hypothesis left) and evaluated on every other bound case of the run (coverage.plan_wf_proved_cases / plan_wf_validated_only_cases; a case '
               'failing plan_wf is reported); the tie is differential testing bounded by the generator.')
 
@@ -179,11 +179,11 @@ PROPS = {
                    'Bind accepts, every parameter of every included provider has an allocated slot, that of the type its source puts out (providesReturns wiring '
                    'invariant + select_sound + allocation theorem), and the slot tables are injective, disjoint and bounded. plan_wf itself is proved '
                    '(C01_bound_chain_is_well_formed); C01_every_plain_chain_refines_reference states the refinement with no hypothesis about the plan for every '
-                   'case without Reorder annotation and init function, C01_every_bound_chain_refines_reference for every other bound chain under two positional '
-                   'conditions that the run evaluates. The whole pipeline model '
+                   'case without Reorder annotation (with or without init function), C01_every_bound_chain_refines_reference for every other bound chain under one positional '
+                   'condition that the run evaluates. The whole pipeline model '
                    '(classification, selection, slots, machine) is tied to /repo by comparing full observations on generated chains.',
         level_note=CHAIN_NOTE, design_ref='DESIGN.md section 8 (C01)',
-        assumptions=['plan_wf: proved for every bound chain under two positional conditions (proved for cases without Reorder/init, evaluated on the others)', 'reflect.Value.Call passes what it is given'],
+        assumptions=['plan_wf: proved for every bound chain under one positional condition (proved for cases without Reorder, evaluated on the others)', 'reflect.Value.Call passes what it is given'],
     ),
     'C02': dict(
         monitor=True,
@@ -194,7 +194,7 @@ PROPS = {
                    'remainder did not run); run_sem lemmas state the three clauses of the property on the reference semantics. Tied to /repo by the '
                    'chain correspondence (values returned by inner() and by invoke carry provenance tags). C02_no_unallocated_received_value (no hypothesis about the plan): every value an included provider from the invoke function on receives from inner() is read from an allocated up slot, that of the type its source below returns.',
         level_note=CHAIN_NOTE, design_ref='DESIGN.md section 8 (C02)',
-        assumptions=['plan_wf: proved for every bound chain under two positional conditions (proved for cases without Reorder/init, evaluated on the others)'],
+        assumptions=['plan_wf: proved for every bound chain under one positional condition (proved for cases without Reorder, evaluated on the others)'],
     ),
     'C04': dict(
         monitor=True,
@@ -224,7 +224,7 @@ PROPS = {
                    'static_refines transfer it to the machine (same final world for every behaviour; static part = fold over the listed order). '
                    'Tied to /repo by comparing the final working order and the call log. C05_selection_keeps_the_list (selection only marks: the list it returns is the list it was given, entry by entry) and C05_final_list_is_listed_order (without Reorder the final working list is the assembled list), both without hypotheses.',
         level_note=CHAIN_NOTE, design_ref='DESIGN.md section 8 (C05)',
-        assumptions=['plan_wf: proved for every bound chain under two positional conditions (proved for cases without Reorder/init, evaluated on the others)'],
+        assumptions=['plan_wf: proved for every bound chain under one positional condition (proved for cases without Reorder, evaluated on the others)'],
     ),
     'C06': dict(
         monitor=True,
@@ -251,7 +251,7 @@ PROPS = {
                    'the all-zero up environment plus error; a nil TerminalError is transparent), exec_refines_sem and static_refines (the machine '
                    'implements it, run and static part); Coq, no axioms. Tied to /repo by the chain correspondence with failure masks over sessions.',
         level_note=CHAIN_NOTE, design_ref='DESIGN.md section 8 (C07)',
-        assumptions=['plan_wf: proved for every bound chain under two positional conditions (proved for cases without Reorder/init, evaluated on the others)'],
+        assumptions=['plan_wf: proved for every bound chain under one positional condition (proved for cases without Reorder, evaluated on the others)'],
     ),
     'C03': dict(
         monitor=True,
